@@ -6,9 +6,11 @@ LEVEL = "model_checking"
 
 
 def m_headform(v, params):
-    # the stepping evaluator *evaluates* a one-element list in head position, the consensus
-    # evaluator applies X of ((X) ...) to the operands as written
-    return v["kind"] == "stepper-vs-consensus" and (cc.contains_headform(v["case"]["prog"]) or cc.contains_headform(v["case"]["env"]))
+    # the stepping evaluator *evaluates* a one-element list in head position, the consensus evaluator applies X of
+    # ((X) ...) to the operands as written.  The stepper machine of the specification (ClvmStepper.tla) carries this
+    # deviation: only disagreements that it predicts exactly are this finding
+    return v["kind"] == "stepper-vs-consensus" and v.get("model_explains") is True and \
+        (cc.contains_headform(v["case"]["prog"]) or cc.contains_headform(v["case"]["env"]))
 
 
 MATCHERS = {"headform": m_headform}
